@@ -130,7 +130,7 @@ def simple_crosscheck(c, eng, paths, inp, samples_per_path=3):
     return bad
 
 
-def init_crosscheck(c, eng, paths, inp, build, extra=(), vary=(), samples_per_path=4):
+def init_crosscheck(c, eng, paths, inp, build, extra=(), vary=(), samples_per_path=4, skip=()):
     """Engine-vs-CPython cross-check for constructors: for models of each terminal path (under `extra` constraints that pin the symbolic
     platform to the host), `build(model)` constructs the REAL object; every bool / int / flag-word field pyvc computed is compared with the
     attribute of the real object."""
@@ -152,7 +152,7 @@ def init_crosscheck(c, eng, paths, inp, build, extra=(), vary=(), samples_per_pa
                 bad.append(f'real constructor raised {type(e).__name__}: {e} on a path pyvc lets return')
                 break
             for name, v in st.fields.items():
-                if not hasattr(real, name):
+                if name in skip or not hasattr(real, name):
                     continue
                 got = getattr(real, name)
                 if v.kind == 'bool' and isinstance(got, bool):
